@@ -491,6 +491,7 @@ func c18RunChild(dir string, idx int, in c18Input) c18Impl {
 	b, _ := json.Marshal(in)
 	_ = os.WriteFile(inPath, b, 0o644)
 	cmd := exec.Command(os.Args[0], "-test.run", "^TestC18Child$", "-test.timeout", "100s")
+	coverChild(cmd)
 	// GOGC=off: no garbage-collector goroutines, whose scheduling rounds would shift the yield-based schedules
 	cmd.Env = append(os.Environ(), "VERIF_C18_CHILD="+inPath, "VERIF_C18_RESULT="+outPath, fmt.Sprintf("GOMAXPROCS=%d", in.Procs), "GOGC=off", "VERIF_OUT=", "VERIF_DIST=")
 	var out bytes.Buffer
